@@ -1415,7 +1415,7 @@ static std::string recase(Rng &r, const std::string &s) { std::string o = s; int
 
 static const char *C11_TRIGGERS[] = {"te_and_cl", "two_cl_same", "two_cl_diff", "folded_cl", "chunked_http10", "cl_empty", "cl_nondigit", "cl_overflow", "te_unsupported",
                                      "host_differs", "port_differs", "host_missing_11", "hosth_invalid_char", "hosth_empty_label", "hosth_bad_port", "hostu_invalid_char", "hostu_bad_port",
-                                     "hosth_ipv6_unclosed", "te_and_cl_te_last"};
+                                     "hosth_ipv6_unclosed", "te_and_cl_te_last", "hosth_empty", "hosth_empty_abs_target"};
 static const int C11_NTRIG = (int) (sizeof C11_TRIGGERS / sizeof *C11_TRIGGERS);
 
 static void c11_plan(Rng &rng, Plan &p, uint64_t variant) {
@@ -1463,6 +1463,8 @@ static void c11_plan(Rng &rng, Plan &p, uint64_t variant) {
     else if (tname == "hosth_bad_port") { static const char *O[] = {"www.example.com:99999", "www.example.com:0", "www.example.com:abc", "www.example.com:", "www.example.com:-1", "www.example.com:65536"}; host_value = O[rng.below(6)]; must = FL_HOSTH_INVALID; }
     else if (tname == "hostu_invalid_char") { static const char *O[] = {"www.exa$mple.com", "www.example!.com", "www..example.com", "ww~w.example.com"}; std::string h = O[rng.below(4)]; q.target = "http://" + h + strfmt("/id%d/c11", k); host_value = h; must = FL_HOSTU_INVALID; }
     else if (tname == "hostu_bad_port") { static const char *O[] = {"99999", "0", "65536", "123456789"}; std::string pt = O[rng.below(4)]; q.target = "http://" + host + ":" + pt + strfmt("/id%d/c11", k); host_value = host; must = FL_HOSTU_INVALID; }
+    else if (tname == "hosth_empty") { static const char *O[] = {"", " ", "\t", "   "}; host_value = O[rng.below(4)]; must = FL_HOSTH_INVALID; }   // present, but no host in it
+    else if (tname == "hosth_empty_abs_target") { static const char *O[] = {"", " ", "  \t"}; q.target = "http://" + recase(rng, host) + strfmt("/id%d/c11", k); host_value = O[rng.below(3)]; must = FL_HOSTH_INVALID | FL_HOST_AMBIGUOUS; }
     else if (tname == "hosth_ipv6_unclosed") { static const char *O[] = {"[::1", "[::1]x", "[fe80::1"}; host_value = O[rng.below(3)]; must = FL_HOSTH_INVALID; }
     if (q.framing == FR_NONE && !kills_stream && q.body.empty()) { /* no body */ }
     if (host_hdr) add.push_back(H("Host", host_value));
